@@ -370,6 +370,12 @@ module Coq_Pos :
 
   val eqb : positive -> positive -> bool
 
+  val coq_Nsucc_double : n -> n
+
+  val coq_Ndouble : n -> n
+
+  val coq_land : positive -> positive -> n
+
   val iter_op : ('a1 -> 'a1 -> 'a1) -> positive -> 'a1 -> 'a1
 
   val to_nat : positive -> nat
@@ -409,6 +415,8 @@ module N :
 
   val max : n -> n -> n
 
+  val div2 : n -> n
+
   val pow : n -> n -> n
 
   val pos_div_eucl : positive -> n -> n * n
@@ -418,6 +426,10 @@ module N :
   val div : n -> n -> n
 
   val modulo : n -> n -> n
+
+  val coq_land : n -> n -> n
+
+  val shiftr : n -> n -> n
 
   val to_nat : n -> nat
 
@@ -569,6 +581,8 @@ val be_u24 : n p
 
 val be_u32 : n p
 
+val be_u64 : n p
+
 val count_u8 : nat -> n list p
 
 val length_count_u8_u8 : n list p
@@ -628,6 +642,94 @@ type tlsEncrypted = { e_hdr : tlsRecordHeader; e_blob : slice }
 
 type tlsRawRecord = { r_hdr : tlsRecordHeader; r_data : slice }
 
+type tlsExtension =
+| ESNI of (n * slice) list
+| EMaxFragmentLength of n
+| EStatusRequest of (n * slice) option
+| EEllipticCurves of n list
+| EEcPointFormats of slice
+| ESignatureAlgorithms of n list
+| ERecordSizeLimit of n
+| ESessionTicket of slice
+| EKeyShareOld of slice
+| EKeyShare of slice
+| EPreSharedKey of slice
+| EEarlyData of n option
+| ESupportedVersions of n list
+| ECookie of slice
+| EPskExchangeModes of byte list
+| EHeartbeat of n
+| EALPN of slice list
+| ESignedCertificateTimestamp of slice option
+| EPadding of slice
+| EEncryptThenMac
+| EExtendedMasterSecret
+| EOidFilters of (slice * slice) list
+| EPostHandshakeAuth
+| ENextProtocolNegotiation
+| ERenegotiationInfo of slice
+| EEncryptedServerName of n * n * slice * slice * slice
+| EGrease of n * slice
+| EUnknown of n * slice
+
+type serverDHParams = { dh_p : slice; dh_g : slice; dh_ys : slice }
+
+type explicitPrimeC = { ep_prime_p : slice; ep_a : slice; ep_b : slice;
+                        ep_base : slice; ep_order : slice; ep_cofactor : 
+                        slice }
+
+type eCParametersContent =
+| EcExplicitPrime of explicitPrimeC
+| EcNamedGroup of n
+
+type eCParameters = { ec_curve_type : n; ec_content : eCParametersContent }
+
+type serverECDHParams = { ecdh_params : eCParameters; ecdh_public : slice }
+
+type digitallySigned = { ds_alg : (n * n) option; ds_data : slice }
+
+type sCT = { sct_version : n; sct_id : slice; sct_timestamp : n;
+             sct_ext : slice; sct_sig : digitallySigned }
+
+type dTLSRecordHeader = { d_type : n; d_version : n; d_epoch : n; d_seq : 
+                          n; d_len : n }
+
+type dTLSClientHelloC = { dch_version : n; dch_random : slice;
+                          dch_sid : slice option; dch_cookie : slice;
+                          dch_ciphers : n list; dch_comp : n list;
+                          dch_ext : slice option }
+
+type dTLSBody =
+| DHelloRequest
+| DClientHello of dTLSClientHelloC
+| DHelloVerifyRequest of n * slice
+| DServerHello of serverHelloC
+| DNewSessionTicket of n * slice
+| DHelloRetryRequest of helloRetryC
+| DCertificate of slice list
+| DServerKeyExchange of slice
+| DCertificateRequest of certRequestC
+| DServerDone of slice
+| DCertificateVerify of slice
+| DClientKeyExchange of clientKeyExchangeC
+| DFinished of slice
+| DCertificateStatus of n * slice
+| DNextProtocol of slice * slice
+| DFragment of slice
+
+type dTLSMessageHandshake = { dhs_type : n; dhs_length : n; dhs_seq : 
+                              n; dhs_frag_off : n; dhs_frag_len : n;
+                              dhs_body : dTLSBody }
+
+type dTLSMessage =
+| DMHandshake of dTLSMessageHandshake
+| DMChangeCipherSpec
+| DMAlert of n * n
+| DMApplicationData of slice
+| DMHeartbeat of n * n * slice
+
+type dTLSPlaintext = { dp_hdr : dTLSRecordHeader; dp_msgs : dTLSMessage list }
+
 val str : string -> byte list
 
 type sx =
@@ -684,6 +786,28 @@ val sx_enc : tlsEncrypted -> sx
 
 val sx_raw : tlsRawRecord -> sx
 
+val sx_ext : tlsExtension -> sx
+
+val sx_dh : serverDHParams -> sx
+
+val sx_ecc : eCParametersContent -> sx
+
+val sx_ecp : eCParameters -> sx
+
+val sx_ecdh : serverECDHParams -> sx
+
+val sx_ds : digitallySigned -> sx
+
+val sx_sct : sCT -> sx
+
+val sx_dhdr : dTLSRecordHeader -> sx
+
+val sx_dbody : dTLSBody -> sx
+
+val sx_dmsg : dTLSMessage -> sx
+
+val sx_dplain : dTLSPlaintext -> sx
+
 val assoc_N : n -> (n * 'a1) list -> 'a1 option
 
 type hs_body_id =
@@ -717,6 +841,47 @@ type rec_body_id =
 | RB_once_appdata
 | RB_complete_heartbeat
 
+type dtls_rec_body_id =
+| DRB_many1_ccs
+| DRB_many1_alert
+| DRB_many1_handshake
+
+type dtls_hs_body_id =
+| DHB_client_hello
+| DHB_hello_verify_request
+| DHB_server_hello
+| DHB_serverdone
+| DHB_clientkeyexchange
+| DHB_certificate
+
+type ext_content_id =
+| XC_sni
+| XC_max_fragment_length
+| XC_status_request
+| XC_elliptic_curves
+| XC_ec_point_formats
+| XC_signature_algorithms
+| XC_heartbeat
+| XC_alpn
+| XC_signed_certificate_timestamp
+| XC_padding
+| XC_encrypt_then_mac
+| XC_extended_master_secret
+| XC_record_size_limit
+| XC_session_ticket
+| XC_key_share_old
+| XC_pre_shared_key
+| XC_early_data
+| XC_supported_versions
+| XC_cookie
+| XC_psk_key_exchange_modes
+| XC_oid_filters
+| XC_post_handshake_auth
+| XC_key_share
+| XC_npn
+| XC_renegotiation_info
+| XC_encrypted_server_name
+
 val hs_table : (n * hs_body_id) list
 
 val sh_versions : (n * sh_form) list
@@ -725,9 +890,59 @@ val sh_msg_versions : (n * sh_form) list
 
 val rec_table : (n * rec_body_id) list
 
+val dtls_rec_table : (n * dtls_rec_body_id) list
+
+val dtls_hs_table : (n * dtls_hs_body_id) list
+
+val generic_table : (n * ext_content_id) list
+
+val client_table : (n * ext_content_id) list
+
+val server_table : (n * ext_content_id) list
+
+val grease_mask : n
+
+val grease_val : n
+
+val tag_sni : n
+
+val tag_max_fragment_length : n
+
+val tag_status_request : n
+
+val tag_elliptic_curves : n
+
+val tag_ec_point_formats : n
+
+val tag_signature_algorithms : n
+
+val tag_heartbeat : n
+
+val tag_encrypt_then_mac : n
+
+val tag_extended_master_secret : n
+
+val tag_session_ticket : n
+
+val tag_key_share : n
+
+val tag_pre_shared_key : n
+
+val tag_early_data : n
+
+val tag_supported_versions : n
+
+val tag_cookie : n
+
+val tag_psk_key_exchange_modes : n
+
 val parse_cipher_suites : n -> n list p
 
 val parse_compressions_algs : n -> n list p
+
+val parse_u16_all : n list p
+
+val parse_tls_versions : n list p
 
 val opt_ext : slice option p
 
@@ -820,6 +1035,176 @@ val tls_parser : tlsPlaintext p
 
 val tls_parser_many : tlsPlaintext list p
 
+val parse_tls_extension_sni_hostname : (n * slice) p
+
+val parse_tls_extension_sni_content : tlsExtension p
+
+val parse_tls_extension_max_fragment_length_content : tlsExtension p
+
+val parse_tls_extension_status_request_content : n -> tlsExtension p
+
+val parse_named_groups : n list p
+
+val parse_tls_extension_elliptic_curves_content : tlsExtension p
+
+val parse_tls_extension_ec_point_formats_content : tlsExtension p
+
+val parse_tls_extension_signature_algorithms_content : tlsExtension p
+
+val parse_tls_extension_heartbeat_content : tlsExtension p
+
+val parse_protocol_name : slice p
+
+val parse_tls_extension_alpn_content : tlsExtension p
+
+val parse_tls_extension_padding_content : n -> tlsExtension p
+
+val parse_tls_extension_signed_certificate_timestamp_content : tlsExtension p
+
+val empty_only : n -> tlsExtension -> tlsExtension p
+
+val parse_tls_extension_encrypt_then_mac_content : n -> tlsExtension p
+
+val parse_tls_extension_extended_master_secret_content : n -> tlsExtension p
+
+val parse_tls_extension_post_handshake_auth_content : n -> tlsExtension p
+
+val parse_tls_extension_npn_content : n -> tlsExtension p
+
+val parse_tls_extension_record_size_limit : tlsExtension p
+
+val parse_tls_extension_session_ticket_content : n -> tlsExtension p
+
+val parse_tls_extension_key_share_old_content : n -> tlsExtension p
+
+val parse_tls_extension_key_share_content : n -> tlsExtension p
+
+val parse_tls_extension_pre_shared_key_content : n -> tlsExtension p
+
+val parse_tls_extension_early_data_content : n -> tlsExtension p
+
+val parse_tls_extension_supported_versions_content : n -> tlsExtension p
+
+val parse_tls_extension_cookie_content : n -> tlsExtension p
+
+val parse_tls_extension_psk_key_exchange_modes_content : tlsExtension p
+
+val parse_tls_extension_renegotiation_info_content : tlsExtension p
+
+val parse_tls_extension_encrypted_server_name : tlsExtension p
+
+val parse_tls_oid_filter : (slice * slice) p
+
+val parse_tls_extension_oid_filters : tlsExtension p
+
+val parse_tls_extension_unknown : tlsExtension p
+
+val ext_content : ext_content_id -> n -> tlsExtension p
+
+val dispatch_ext : (n * ext_content_id) list -> tlsExtension p
+
+val parse_tls_extension : tlsExtension p
+
+val parse_tls_client_hello_extension : tlsExtension p
+
+val parse_tls_server_hello_extension : tlsExtension p
+
+val parse_tls_extensions : tlsExtension list p
+
+val parse_tls_client_hello_extensions : tlsExtension list p
+
+val parse_tls_server_hello_extensions : tlsExtension list p
+
+val tagged : n -> 'a1 p -> 'a1 p
+
+val with_len : (n -> tlsExtension p) -> tlsExtension p
+
+val parse_tls_extension_sni : tlsExtension p
+
+val parse_tls_extension_max_fragment_length : tlsExtension p
+
+val parse_tls_extension_status_request : tlsExtension p
+
+val parse_tls_extension_elliptic_curves : tlsExtension p
+
+val parse_tls_extension_ec_point_formats : tlsExtension p
+
+val parse_tls_extension_signature_algorithms : tlsExtension p
+
+val parse_tls_extension_heartbeat : tlsExtension p
+
+val parse_tls_extension_encrypt_then_mac : tlsExtension p
+
+val parse_tls_extension_extended_master_secret : tlsExtension p
+
+val parse_tls_extension_session_ticket : tlsExtension p
+
+val parse_tls_extension_key_share : tlsExtension p
+
+val parse_tls_extension_pre_shared_key : tlsExtension p
+
+val parse_tls_extension_early_data : tlsExtension p
+
+val parse_tls_extension_supported_versions : tlsExtension p
+
+val parse_tls_extension_cookie : tlsExtension p
+
+val parse_tls_extension_psk_key_exchange_modes : tlsExtension p
+
+val parse_dh_params : serverDHParams p
+
+val parse_ec_point : slice p
+
+val parse_ec_curve : (slice * slice) p
+
+val parse_explicit_prime : explicitPrimeC p
+
+val parse_ec_parameters_content : n -> eCParametersContent p
+
+val parse_ec_parameters : eCParameters p
+
+val parse_ecdh_params : serverECDHParams p
+
+val parse_digitally_signed_old : digitallySigned p
+
+val parse_digitally_signed : digitallySigned p
+
+val parse_content_and_signature : 'a1 p -> bool -> ('a1 * digitallySigned) p
+
+val parse_log_id : slice p
+
+val parse_ct_extensions : slice p
+
+val parse_ct_signed_certificate_timestamp_content : sCT p
+
+val parse_ct_signed_certificate_timestamp : sCT p
+
+val parse_ct_signed_certificate_timestamp_list : sCT list p
+
+val parse_dtls_record_header : dTLSRecordHeader p
+
+val parse_dtls_fragment : dTLSBody p
+
+val parse_dtls_client_hello : dTLSBody p
+
+val parse_dtls_hello_verify_request : dTLSBody p
+
+val dtls_hs_body : dtls_hs_body_id -> n -> dTLSBody p
+
+val parse_dtls_message_handshake : dTLSMessage p
+
+val parse_dtls_message_changecipherspec : dTLSMessage p
+
+val parse_dtls_message_alert : dTLSMessage p
+
+val dtls_rec_body : dtls_rec_body_id -> dTLSMessage list p
+
+val parse_dtls_record_with_header : dTLSRecordHeader -> dTLSMessage list p
+
+val parse_dtls_plaintext_record : dTLSPlaintext p
+
+val parse_dtls_plaintext_records : dTLSPlaintext list p
+
 val beq_bytes : byte list -> byte list -> bool
 
 val split_on : byte -> byte list -> byte list list
@@ -838,7 +1223,21 @@ val e : 'a1 p -> ('a1 -> sx) -> entry_fn
 
 val e1 : (n -> 'a1 p) -> ('a1 -> sx) -> entry_fn
 
+val sx_pair_ns : (n * slice) -> sx
+
+val sx_pair_ss : (slice * slice) -> sx
+
 val entries_tls : (string * entry_fn) list
+
+val e3d : (dTLSRecordHeader -> 'a1 p) -> ('a1 -> sx) -> entry_fn
+
+val eb : (bool -> 'a1 p) -> ('a1 -> sx) -> entry_fn
+
+val entries_ext : (string * entry_fn) list
+
+val entries_kx : (string * entry_fn) list
+
+val entries_dtls : (string * entry_fn) list
 
 val rECORD_CAP : n
 
